@@ -7,14 +7,14 @@ fix_commits = subprocess.run(['git','-C','/repo','log','--format=%h %s','d9cc95f
 
 CHECKS = {
  # id: (technique, level text, level note, design ref)
- 'C01': ("proptest generated-input search (58 types x 29 functions x stratified real parts incl. a wide-magnitude stratum 10^+-300/(order+1) and pure first-order seeds x arbitrary parts) plus a deterministic magnitude sweep (583 k points) against an independent reference Taylor algebra with running rounding bound",
+ 'C01': ("proptest generated-input search (61 types x 29 functions x stratified real parts incl. a wide-magnitude stratum 10^+-300/(order+1) and pure first-order seeds x arbitrary parts) plus a deterministic magnitude sweep (583 k points) against an independent reference Taylor algebra with running rounding bound",
          "Random/structured exploration with a sound numerical oracle: every part of f(x) is compared with the multivariate Faa di Bruno composition computed in an independent algebra, tolerance 32*u*e (measured worst ratio on the tree ~10). Finds wrong sign/coefficient/dropped/swapped term in any closed form or chain rule on any registered type; cannot prove absence.",
          "trusts libm leaf accuracy (~1 ulp), the ndv-oracle algebra (self-tested against mpmath tables), tolerance model; bounded to registered types (dims<=6, nesting<=3, order<=4)", "4-C01"),
  'C02': ("proptest search on dyadic grids with a bit-exact reference algebra (every + and * verified rounding-free by TwoSum/FMA residuals), exhaustive tensor grids for the 5 scalar f64 types, plus rounding-regime comparison with 32*u*e (incl. powi with 9 <= |n| <= 60000 on bases +-1)",
          "Exact differential oracle: on grid operands the library result must equal the independent truncated-Taylor algebra bit for bit in every part (incl. mixed parts, all presence patterns); complete tensor grids with deg+1 points per operand part are enumerated for Dual, Dual2, Dual3, HyperDual, HyperHyperDual (product, quotient, powi, recip), so agreement determines the polynomial/rational map there; vector/nested types are sampled (Schwartz-Zippel).",
          "assumes any algebraically correct evaluation order is rounding-free on the grid (<= 4 significant bits per part); vector and nested types sampled, not enumerated", "4-C02"),
  'C03': ("proptest generation of SSA expression DAGs (52 opcodes, sharing, constants, all operator forms) with a domain-repairing resolver, plus wide-magnitude composition templates f(c*t); mirror interpreter in the reference algebra with running rounding bound; every node compared",
-         "Random program exploration with a sound oracle: each node of each generated program is compared part by part with the same program evaluated in the independent reference algebra (tolerance 32*u*e, e = first-order rounding bound of that program at that point), on all 58 registered types with arbitrary (non-unit, absent) input parts.",
+         "Random program exploration with a sound oracle: each node of each generated program is compared part by part with the same program evaluated in the independent reference algebra (tolerance 32*u*e, e = first-order rounding bound of that program at that point), on all 61 registered types with arbitrary (non-unit, absent) input parts.",
          "program size <= 12 (quick) / 32 (thorough) nodes, |values| <= 1e6, fixed margins from singularities; magnitudes bounded as in DESIGN 3.7; e-model assumptions of DESIGN 3.3/3.4", "4-C03"),
  'C09': ("proptest over exponent strata (special cases, i32-overflow thresholds, +-2^k up to 2^30, values within ulps of 0/1/2, negative, non-integer, large, huge real exponents up to 1e300) with bases x=+-exp(t/n); reference generalized binomial Taylor data; metamorphic relations between powi/powf/powd/exp-ln/products/roots",
          "Stratified exploration with a numerical oracle (32*u*e with |n| units for repeated squaring) plus explicit cross-agreement of the three power functions, repeated multiplication/division, exp(n ln x), sqrt/cbrt/recip; fixed cases pin the i32 overflow thresholds.",
@@ -25,11 +25,11 @@ CHECKS = {
  'C14': ("proptest over x in [-60,60] (strata: 0, tiny, +-3 floats around 1e-5 / 1 / 5 and the zeros of J0,J1,J2, rational and asymptotic branch, both signs) on all f64 Copy types up to 4th order; Miller-recurrence reference with derivative recurrences (validated against mpmath); parity relation",
          "Stratified exploration with an independent high-accuracy reference: value to 16u(1+|J|), derivative parts of order k to 2^(5+3k) u*sum|terms| (measured head-room >= 10x), parity of every part; catches wrong branch thresholds, coefficients beyond the schedule, sign/parity errors and lost higher-order parts.",
          "coefficient perturbations below the per-order schedule invisible; reference accurate to a few u", "4-C14"),
- 'C15': ("proptest over x in [-50,50] (0, below eps down to 1e-300, +-3 floats around eps and 1, small, moderate, large, both signs) on all 58 types over f32/f64 plus a deterministic sweep of the plain-float instances; re-expanded Taylor series / closed-form series-arithmetic reference; real-part-vs-plain-float and parity relations",
+ 'C15': ("proptest over x in [-50,50] (0, below eps down to 1e-300, +-3 floats around eps and 1, small, moderate, large, both signs) on all 61 types over f32/f64 plus a deterministic sweep of the plain-float instances; re-expanded Taylor series / closed-form series-arithmetic reference; real-part-vs-plain-float and parity relations",
          "Stratified exploration with an independent reference (32*u*e, e from the well-conditioned evaluation, so the closed forms' 1/x^k amplification is not granted), agreement of the dual real part with the plain float implementation, parity with negated parts.",
          "reference validated against mpmath tables (ndv selftest)", "4-C15"),
  'C04': ("proptest-generated programs evaluated on pairs of library types that expose the same derivatives (612 distinct type pairs per quick run: same reference algebra, static vs dynamic, f32 vs f64, vector vs scalar per direction), inputs mapped through the embedding table; differential comparison of every shared part of every node; plus generated functions whose partial derivatives up to third order are obtained through every driver / number-type route of the crate and compared pairwise",
-         "Pure differential oracle between library types (tolerance 2*32 u e, e from the reference run), plus each side against the reference; NDERIV of all 58 registered types enumerated exhaustively.",
+         "Pure differential oracle between library types (tolerance 2*32 u e, e from the reference run), plus each side against the reference; NDERIV of all 61 registered types enumerated exhaustively.",
          "dimensions 0..6, nesting depth <= 3; partner types limited to the registry", "4-C04"),
  'C05': ("proptest-generated functions R^n -> R^m (shared expression DAG, m outputs) for all 20 drivers, static sizes {1,2,3,4,6}^2 and dynamic 0..6, generated index triples, failing closures with generated error values, wide-magnitude points (coordinates 10^e, |e| up to 290) with template functions; reference partials from unit-seeded reference algebra",
          "Exploration with an orientation-sensitive oracle: every component of every driver result is compared with the partial derivative read off the independently seeded reference algebra (non-symmetric functions, n != m), shapes checked, try_ variants compared bit for bit / error value propagated.",
@@ -40,7 +40,7 @@ CHECKS = {
  'C07': ("proptest programs and compound-assignment histories on all types with optional parts; ALL 2^k absent/explicit-zero representations (k<=6) enumerated per case and compared part by part on every node; direct calls of the 18 operator impls of the Derivative container against plain matrices; driver functions (gradient, jacobian, try_jacobian, hessian, partial_hessian) on functions whose constants are absent or explicit zeros, all representations enumerated",
          "Exploration with per-case exhaustive enumeration of representations: numerical equality of every part of every node across representations, and agreement with the reference algebra.",
          "k <= 6 marked zero blocks per case; finite values", "4-C07"),
- 'C08': ("proptest over 15 form families (owned/borrowed/mixed/assign forms, scalar forms, inv, Sum/Product owned and borrowed incl. empty, mul_add, From<F>, 14 FromPrimitive constructors, Zero/One/16 FloatConst) on all 58 types via HRTB-generic instantiation; bit-for-bit equality between forms, base form against the reference algebra; wide-magnitude scalars (|s| = 10^e, |e| <= 290) against the correctly rounded part*s, part/s",
+ 'C08': ("proptest over 15 form families (owned/borrowed/mixed/assign forms, scalar forms, inv, Sum/Product owned and borrowed incl. empty, mul_add, From<F>, 14 FromPrimitive constructors, Zero/One/16 FloatConst) on all 61 types via HRTB-generic instantiation; bit-for-bit equality between forms, base form against the reference algebra; wide-magnitude scalars (|s| = 10^e, |e| <= 290) against the correctly rounded part*s, part/s",
          "Differential exploration between syntactic forms (bit-exact; multiplicative scalar forms 16 u) anchored to the reference algebra so that all forms being equally wrong cannot pass.",
          "presence patterns of results are not compared (C07)", "4-C08"),
  'C11': ("proptest over 48 method groups of ComplexField/RealField/SimdValue on the 26 field-compatible instantiations; forwarders bit-equal to the generic dual operation, composed methods against the reference algebra, real parts against the same method on plain floats, selection methods return the selected operand's own parts (equal, adjacent and signed-zero real parts); constants enumerated exhaustively",
@@ -55,7 +55,7 @@ CHECKS = {
  'C16': ("proptest over 20 serializable scalar/nested types with arbitrary finite bit patterns; exact structural comparison of the serialized serde_json::Value with the documented fields, bit-exact round trip through Value and JSON text, metamorphic key-reordering and value-swapping",
          "Round-trip and structure exploration: every part restored bit for bit, exactly the documented field names and nothing else, fields bound by name.",
          "serde_json (float_roundtrip) is the only data format", "4-C16"),
- 'C18': ("proptest over all 58 types with arbitrary finite bit patterns and presence patterns; Display output tokenised (numbers, symbol runs) and matched token by token against the sequence derived from the type structure; every number parsed back bit-exactly",
+ 'C18': ("proptest over all 61 types with arbitrary finite bit patterns and presence patterns; Display output tokenised (numbers, symbol runs) and matched token by token against the sequence derived from the type structure; every number parsed back bit-exactly",
          "Round-trip exploration of the textual rendering: no part dropped, duplicated, swapped, sign-flipped or altered; documented symbols in fixed order; absent parts omitted.",
          "separators and the nalgebra matrix box are not part of the oracle", "4-C18"),
  'C17': ("proptest-generated programs rendered to Python source and executed in an embedded CPython against the built-in extension module; differential comparison (bit-for-bit floats through getters/driver tuples, string equality of repr of every node) with the generic Rust interpreter on the corresponding Rust type / driver",
